@@ -100,6 +100,10 @@ fn render(class: &str, tape: &[u8]) -> String {
 
 fn case(class: &str, tape: &[u8], _strict: bool) -> Outcome {
     let p = decode(class, tape);
+    case_of(p, class, tape)
+}
+
+pub fn case_of(p: Program, class: &str, tape: &[u8]) -> Outcome {
     let det = p.det_seed;
     let debug = std::env::var_os("VAPI_DEBUG").is_some();
     let start = std::time::Instant::now();
@@ -311,6 +315,7 @@ fn run_inner(p: &Program) -> Result<Outcome, Outcome> {
         ("promise-held", "promise-held"),
         ("event:received", "event:received"),
         ("chan:items-flowed", "item:received"),
+        ("chan:item-order-checked>=2", "item:order-checked>=2"),
         ("bus-event:received", "bus-event:received"),
         ("discoverer-event:received", "discoverer-event:received"),
         ("cross-client-proxy", "cross-client-proxy"),
